@@ -50,4 +50,18 @@ theorem maxTotalRequesters : Facts.c13_maxTotalRequesters = 600 := by decide
 `Pool.resetReq`; theorem `numPending_is_waiting_requesters`) -/
 theorem reset_guard : Facts.c13_reset_guard = "bpr.block != nil" := by decide
 
+/-- v1 `processBlock`: light verification of `second.LastCommit`, then `SaveBlock`, then `ApplyBlock`
+(which validates) — the model `V1.Node.processOnce` has this order -/
+theorem v1_process_order : Facts.c13_v1_process_order =
+    ["FirstTwoBlocks", "VerifyCommitLight", "SaveBlock", "ApplyBlock"] := by decide
+
+/-- v1 starts its pool at `state.InitialHeight` on an empty store (model: `startHeight`) -/
+theorem v1_start_height : Facts.c13_v1_start_height = true := by decide
+theorem v1_maxRequestsPerPeer : Facts.c13_v1_maxRequestsPerPeer = 20 := by decide
+
+/-- v2 scheduler: a Removed peer's status is ignored (model: `V2S.Sched.setPeerRange`) and
+`targetPending` is 10 -/
+theorem v2_sched_removed_noop : Facts.c13_v2_sched_removed_noop = "peer.state == peerStateRemoved" := by decide
+theorem v2_targetPending : Facts.c13_v2_targetPending_10 = true := by decide
+
 end Tmv.Expect.C13
